@@ -133,12 +133,12 @@ RAISES = ["raise ValueError('{boom}')", "int('{')", "raise KeyError('{0}')", "ra
           "open('/nonexistent/file')", "raise MemoryError", "raise RecursionError"]
 
 
-def run_check(g, proj, D, expect_ok, want_in_err=("COND", ".cond")):
+def run_check(g, proj, D, expect_ok, want_in_err=("COND", ".cond"), cwd=None):
     import conductor.cli.run as cli_run
     for check in (True, False):
         sched = graphs.SymSched(g, all_ok=True)
         kern = fakeos.Kernel(sched, clock=fakeos.Clock())
-        res = hrun.invoke(cli_run.main, hrun.run_ns(task_identifier="//:x", check=check), str(proj.root), kern)
+        res = hrun.invoke(cli_run.main, hrun.run_ns(task_identifier="//:x", check=check), cwd or str(proj.root), kern)
         mode = "--check" if check else "run"
         if isinstance(res.status, str):
             g.require(False, "schema:crash:" + res.status[4:], "%s: %s; %s" % (mode, res.exc, D))
@@ -215,9 +215,17 @@ def make(two_deviations=False):
                         path.write_text(content)
                 proj.write("COND", text)
                 D = "include variant: " + label
+                # the project directory may be entered through a symbolic link ($PWD then holds the link's path)
+                alias = None
+                if g.flag("project_entered_through_a_symbolic_link"):
+                    alias = os.path.join(os.path.dirname(str(proj.root)), "alias of " + proj.root.name)
+                    os.symlink(str(proj.root), alias)
+                    D += " (project entered through a symbolic link)"
                 try:
-                    run_check(g, proj, D, ok)
+                    run_check(g, proj, D, ok, cwd=alias)
                 finally:
+                    if alias is not None:
+                        os.unlink(alias)
                     for rel in files:
                         if rel.startswith("../"):
                             try:
